@@ -113,7 +113,16 @@ class Norm:
                 r = x.get('ref') or {}
                 if r.get('k') in ('Field', 'Global', 'StaticMember') and r['n'] in fields and \
                         access_kind(f, x) in ('write', 'rmw', 'addr', 'call'):
-                    clob.append(x)
+                    # the write happens at the assigning operator, after its operands have been evaluated
+                    w = x
+                    q = f.parent(w)
+                    while q is not None and q['k'] in ('ArraySubscriptExpr', 'ImplicitCastExpr', 'MemberExpr', 'ParenExpr') and \
+                            kids(q) and (kids(q)[0] is w):
+                        w, q = q, f.parent(q)
+                    if q is not None and q['k'] in ('BinaryOperator', 'CompoundAssignOperator') and kids(q)[0] is w and \
+                            (q.get('op') == '=' or q['k'] == 'CompoundAssignOperator'):
+                        w = q
+                    clob.append(w)
                 c = x.get('callee')
                 if c and x['k'] == 'CXXMemberCallExpr' and not c.get('const') and c.get('n', '').rsplit('::', 1)[0] in owners:
                     obj = kids(kids(x)[0]) if kids(x) and kids(kids(x)[0]) else []
